@@ -4,6 +4,8 @@
 -/
 import PaletteModel.Proto
 import PaletteModel.Color.Cie
+import PaletteModel.Color.RgbFamily
+import PaletteModel.Color.Ok
 
 namespace Conv
 open Proto
@@ -49,31 +51,130 @@ def cieEdge? [Angle α] {β : Type} [Scalar β] [ViaF64 α β] (src dst : String
   | "Lms", "Xyz" => if dst.2 == "Any" then (Cie.coneMatrix? src.2).map fun (_, b) => ⟨Cie.lmsToXyz b, fun _ => ones⟩ else none
   | _, _ => none
 
+/-! #### RGB family: Rgb, Hsv, Hsl, Hwb, Luma (cfg = RGB standard name of `Color.standard?`; a luma standard is named by
+     the RGB standard with the same white point and transfer function, `Linear<D65>` = `LinSrgb`).  A destination cfg
+     `<std>+simd` selects the mask-generic branch of `Hsv`/`Hsl ← Rgb` (the harness runs it through `wide` lanes). -/
+
+/-- hue outputs: absolute tolerance in ulps of a full turn -/
+def hueScale : V3 α := ⟨360.0, 1.0, 1.0⟩
+
+def stripSimd (cfg : String) : String × Bool :=
+  match cfg.splitOn "+" with
+  | [a, "simd"] => (a, true)
+  | _ => (cfg, false)
+
+def rgbEdge? (src dst : String × String) : Option (Edge α) :=
+  let (dcfg, simd) := stripSimd dst.2
+  let isStd (t : String) : Bool := t == "Rgb" || t == "Hsv" || t == "Hsl" || t == "Hwb" || t == "Luma"
+  -- standard-parametrised types carry an RGB standard name, Xyz/Yxy a white point name
+  let s? := if isStd src.1 then RgbFam.Std.of? src.2 else none
+  let d? := if isStd dst.1 then RgbFam.Std.of? dcfg else none
+  match src.1, dst.1, s?, d? with
+  | "Rgb", "Xyz", some s, none => if s.wp == dst.2 then some ⟨RgbFam.rgbToXyz s.toXyz s.tf, fun _ => ones⟩ else none
+  | "Luma", "Xyz", some s, none => if s.wp == dst.2 then some ⟨RgbFam.lumaToXyz s, fun _ => ones⟩ else none
+  | "Luma", "Yxy", some s, none => if s.wp == dst.2 then some ⟨RgbFam.lumaToYxy s, fun _ => ones⟩ else none
+  | "Xyz", "Rgb", none, some d => if d.wp == src.2 && !simd then some ⟨RgbFam.xyzToRgb d.fromXyz d.tf, fun _ => ones⟩ else none
+  | "Xyz", "Luma", none, some d => if d.wp == src.2 && !simd then some ⟨RgbFam.xyzToLuma d, fun _ => ones⟩ else none
+  | "Yxy", "Luma", none, some d => if d.wp == src.2 && !simd then some ⟨RgbFam.yxyToLuma d, fun _ => ones⟩ else none
+  | a, b, some s, some d =>
+    let same := s.name == d.name
+    match a, b with
+    | "Rgb", "Rgb" => if s.wp == d.wp && !simd then some ⟨RgbFam.rgbToRgb s d, fun _ => ones⟩ else none
+    | "Rgb", "Hsv" => if same then some ⟨if simd then RgbFam.rgbToHsvMask else RgbFam.rgbToHsv, fun _ => hueScale⟩ else none
+    | "Rgb", "Hsl" => if same then some ⟨if simd then RgbFam.rgbToHslMask else RgbFam.rgbToHsl, fun _ => hueScale⟩ else none
+    | "Hsv", "Rgb" => if same && !simd then some ⟨RgbFam.hsvToRgb, fun _ => ones⟩ else none
+    | "Hsl", "Rgb" => if same && !simd then some ⟨RgbFam.hslToRgb, fun _ => ones⟩ else none
+    | "Hsl", "Hsv" => if same && !simd then some ⟨RgbFam.hslToHsv, fun _ => hueScale⟩ else none
+    | "Hsv", "Hsl" => if same && !simd then some ⟨RgbFam.hsvToHsl, fun _ => hueScale⟩ else none
+    | "Hsv", "Hwb" => if same && !simd then some ⟨RgbFam.hsvToHwb, fun _ => hueScale⟩ else none
+    | "Hwb", "Hsv" => if same && !simd then some ⟨RgbFam.hwbToHsv, fun _ => hueScale⟩ else none
+    | "Hsv", "Hsv" => if s.wp == d.wp && !simd then
+        some ⟨RgbFam.hsvToHsv s d, fun _ => hueScale⟩ else none
+    | "Hsl", "Hsl" => if s.wp == d.wp && !simd then
+        some ⟨RgbFam.hslToHsl s d, fun _ => hueScale⟩ else none
+    | "Hwb", "Hwb" => if s.wp == d.wp && !simd then
+        some ⟨RgbFam.hwbToHwb s d, fun _ => hueScale⟩ else none
+    | "Luma", "Luma" => if s.wp == d.wp && !simd then some ⟨RgbFam.lumaToLuma s d, fun _ => ones⟩ else none
+    | "Luma", "Rgb" => if s.wp == d.wp && !simd then some ⟨RgbFam.lumaToRgb s d, fun _ => ones⟩ else none
+    | _, _ => none
+  | _, _, _, _ => none
+
+
+section OkFamily
+variable [Angle α]
+
+/-- standards the Ok family is driven with: the RGB space must have the D65 white point -/
+def okStd? (cfg : String) : Option (Color.RgbSpaceData × Transfer.Fn) :=
+  match Color.standard? cfg with
+  | some (sp, tf) => match Color.rgbSpace? sp with
+    | some d => if d.wp == "D65" then some (d, tf) else none
+    | none => none
+  | none => none
+
+def absMax3 (v : V3 α) : α := Scalar.max (Scalar.abs v.c0) (Scalar.max (Scalar.abs v.c1) (Scalar.abs v.c2))
+
+/-- Ottosson family.  Scales (see `Edge`): the opponent components a, b of Oklab are differences of the cube roots of the
+    cone responses (coefficients up to 2.43), so they are compared relative to 2.5·∛max|input|, never tighter than that;
+    linear RGB / XYZ obtained from Oklab are differences of cubes with coefficients up to 4.08 → 4.1·max|lms'|³, bounded
+    through (|l| + |a| + 1.3|b|)³; a hue is compared with the absolute tolerance of 360°; Cartesian components rebuilt from
+    a hue are relative to the chroma.  Okhsl/Okhsv outputs are compared on their own unit scale. -/
+def okEdge? (src dst : String × String) : Option (Edge α) :=
+  let cbrtScale : V3 α → V3 α := fun c => let m := 2.5 * Scalar.cbrt (absMax3 c); ⟨m, m, m⟩
+  let cubeScale : V3 α → V3 α := fun c =>
+    let u := Scalar.abs c.c0 + Scalar.abs c.c1 + 1.3 * Scalar.abs c.c2
+    let m := 4.1 * (u * u * u); ⟨m, m, m⟩
+  match src.1, dst.1 with
+  | "Xyz", "Oklab" => if src.2 == "D65" then some ⟨Ok.xyzToOklab, cbrtScale⟩ else none
+  | "Oklab", "Xyz" => if dst.2 == "D65" then some ⟨Ok.oklabToXyz, cubeScale⟩ else none
+  | "Rgb", "Oklab" => (okStd? src.2).map fun (sp, tf) => ⟨Ok.rgbToOklab sp tf, fun _ => ⟨2.5, 2.5, 2.5⟩⟩
+  | "Oklab", "Rgb" => (okStd? dst.2).map fun (sp, tf) => ⟨Ok.oklabToRgb sp tf, fun c => let s := cubeScale c; ⟨Scalar.max s.c0 1.0, Scalar.max s.c1 1.0, Scalar.max s.c2 1.0⟩⟩
+  | "Oklab", "Oklch" => some ⟨Ok.oklabToOklch, fun _ => ⟨1.0, 1.0, 360.0⟩⟩
+  | "Oklch", "Oklab" => some ⟨Ok.oklchToOklab, fun c => ⟨1.0, Scalar.abs c.c1, Scalar.abs c.c1⟩⟩
+  | "Okhsl", "Oklab" => some ⟨Ok.okhslToOklab, fun _ => ones⟩
+  | "Oklab", "Okhsl" => some ⟨Ok.oklabToOkhsl, fun _ => ⟨360.0, 1.0, 1.0⟩⟩
+  | "Okhsv", "Oklab" => some ⟨Ok.okhsvToOklab, fun _ => ones⟩
+  | "Oklab", "Okhsv" => some ⟨Ok.oklabToOkhsv, fun _ => ⟨360.0, 1.0, 1.0⟩⟩
+  | "Okhsv", "Okhwb" => some ⟨Ok.okhsvToOkhwb, fun _ => ones⟩
+  | "Okhwb", "Okhsv" => some ⟨Ok.okhwbToOkhsv, fun _ => ones⟩
+  | _, _ => none
+
+
+end OkFamily
+
 def edge? [Angle α] {β : Type} [Scalar β] [ViaF64 α β] (src dst : String × String) : Option (Edge α) :=
-  cieEdge? src dst
+  ((cieEdge? src dst).orElse fun _ => rgbEdge? src dst).orElse fun _ => okEdge? src dst
+
+/-- a colour with fewer than three components (`Luma`) is carried with zero padding; only the components the
+    implementation printed are compared -/
+def pad3 (zero : α) : List α → Option (V3 α)
+  | [a] => some ⟨a, zero, zero⟩
+  | [a, b, c] => some ⟨a, b, c⟩
+  | _ => none
 
 def handle (cfg inp outp : List String) : Verdict :=
   match cfg with
   | [s, d] =>
     let (src, dst) := (tyCfg s, tyCfg d)
-    match inp.mapM f32?, outp.mapM f32? with
-    | some [a, b, c], some [x, y, z] =>
+    match (inp.mapM f32?).bind (pad3 (0.0 : Float32)), outp.mapM f32? with
+    | some i, some o =>
+      if o.length != 1 && o.length != 3 then .bad "conv line: 1 or 3 output components expected" else
       match edge? (α := Float32) src dst with
       | none => .bad s!"no model edge {s} -> {d}"
       | some e =>
-        let m := e.f ⟨a, b, c⟩
-        let sc := e.scale ⟨a, b, c⟩
-        if closeAbs32 m.c0 x sc.c0 8 && closeAbs32 m.c1 y sc.c1 8 && closeAbs32 m.c2 z sc.c2 8 then .agree [src.1 ++ "->" ++ dst.1 ++ ":f32"]
+        let m := e.f i
+        let sc := e.scale i
+        if (List.zip o (List.zip m.toList sc.toList)).all (fun (x, mm, ss) => closeAbs32 mm x ss 8) then .agree [src.1 ++ "->" ++ dst.1 ++ (if (stripSimd dst.2).2 then "+simd" else "") ++ ":f32"]
         else .disagree s!"model={showF32 m.c0} {showF32 m.c1} {showF32 m.c2}"
     | _, _ =>
-      match inp.mapM f64?, outp.mapM f64? with
-      | some [a, b, c], some [x, y, z] =>
+      match (inp.mapM f64?).bind (pad3 (0.0 : Float)), outp.mapM f64? with
+      | some i, some o =>
+        if o.length != 1 && o.length != 3 then .bad "conv line: 1 or 3 output components expected" else
         match edge? (α := Float) src dst with
         | none => .bad s!"no model edge {s} -> {d}"
         | some e =>
-          let m := e.f ⟨a, b, c⟩
-          let sc := e.scale ⟨a, b, c⟩
-          if closeAbs64 m.c0 x sc.c0 8 && closeAbs64 m.c1 y sc.c1 8 && closeAbs64 m.c2 z sc.c2 8 then .agree [src.1 ++ "->" ++ dst.1 ++ ":f64"]
+          let m := e.f i
+          let sc := e.scale i
+          if (List.zip o (List.zip m.toList sc.toList)).all (fun (x, mm, ss) => closeAbs64 mm x ss 8) then .agree [src.1 ++ "->" ++ dst.1 ++ (if (stripSimd dst.2).2 then "+simd" else "") ++ ":f64"]
           else .disagree s!"model={showF64 m.c0} {showF64 m.c1} {showF64 m.c2}"
       | _, _ => .bad "unparsable conv line"
   | _ => .bad "malformed conv line"
